@@ -138,6 +138,7 @@ func loadProgram(spec *Spec) (*Program, *ssa.Function, error) {
 	P.rtErrT = rt.Type("errorString").Object().Type()
 	if fp := prog.ImportedPackage("fmt"); fp != nil {
 		P.wrapErrT = types.NewPointer(fp.Type("wrapError").Object().Type())
+		P.wrapErrsT = types.NewPointer(fp.Type("wrapErrors").Object().Type())
 	}
 	var main *ssa.Package
 	for _, p := range prog.AllPackages() {
